@@ -2252,7 +2252,8 @@ Section Top.
                 assert (Hc : cancels s1 = []) by (apply P4, clean_log_cleanc, Cl).
                 assert (Hi : inflight s1 = []).
                 { apply (reclaimed m s1 P2 P3 Hc). rewrite <- M5.
-                  erewrite forallb_ext; [exact Fa|]. intro i. unfold done_idx. rewrite M3, M4. reflexivity. }
+                  rewrite forallb_forall in Fa |- *. intros i Hi. specialize (Fa i Hi).
+                  unfold done_idx in *. rewrite M3, M4 in Fa. exact Fa. }
                 rewrite Hi. reflexivity.
              ++ right; right. cbn [terminal upd_tr]. split; [exact P1|]. split.
                 ** eapply Live_X; [apply XFrame_upd_tr|exact P2].
@@ -2267,4 +2268,36 @@ Section Top.
       + rewrite Ed. destruct (finished s); reflexivity.
       + unfold drop_dispatch. cbn [dropped upd_fin finished]. destruct (finished _); reflexivity.
   Qed.
+
+  Lemma run_c11 maxif ops : forall s m,
+    J m s -> K s -> max_if s = maxif -> (next_id s + N.of_nat (length ops) < two64)%N ->
+    v11 (chk_run maxif m ops (fst (run_from tp fuel_of s ops))) = true.
+  Proof.
+    induction ops as [|o r IH]; intros s m HJ HK HM Hw; cbn [run_from]; [reflexivity|].
+    destruct (step tp fuel_of s o) as [s1 l] eqn:Es.
+    destruct (K_step tp fuel_of maxif _ _ _ _ HK HM Es) as (K1 & M1 & G).
+    assert (Hw1 : (next_id s + 1 < two64)%N) by (cbn [length] in Hw; lia).
+    destruct (J_step maxif m _ _ _ _ HJ Hw1 Es G) as [V J1].
+    pose proof (nid_step _ _ _ _ Hw1 Es) as Hn.
+    specialize (IH s1 (snd (chk_obs maxif o m l)) J1 K1 M1 ltac:(cbn [length] in Hw; lia)).
+    destruct (run_from tp fuel_of s1 r) as [ls s2]. cbn [fst chk_run] in *.
+    destruct (chk_obs maxif o m l) as [v m']. cbn [fst snd] in *.
+    cbn [vand v11]. rewrite V, IH. reflexivity.
+  Qed.
 End Top.
+
+Theorem c11_holds {T : Type} : @stmt_c11 T.
+Proof.
+  unfold stmt_c11, c11_ok, monitors, client_trace, no_wrap.
+  intros tp fuel_of t0 qcap maxif ops Hw.
+  apply run_c11; try reflexivity.
+  - right; right. split; [reflexivity|]. split.
+    + constructor; try (cbn; intros; lia); try reflexivity.
+      constructor; [intros w []|constructor].
+    + constructor; try reflexivity.
+      * intros i p H. unfold ph in H. cbn in H. destruct i; discriminate.
+      * intros i _. unfold done_idx. cbn. destruct i; auto.
+  - constructor; cbn; [reflexivity|lia].
+  - cbn [next_id init]. unfold two64. lia.
+Qed.
+Print Assumptions c11_holds.
